@@ -378,3 +378,22 @@ func c05DialPeerStaleExit(out *verifh.Out) {
 	out.Cover("dialpeer.corpus_stale_worker_exit")
 	h.end(out)
 }
+
+// A caller that is cancelled while it is still blocked sending its request (the worker loop
+// is parked in the connection gater handling another request) leaves without touching the
+// dials the other callers wait for.
+func c05DialPeerSendCancel(out *verifh.Out) {
+	h := newC05D(4, 2)
+	h.setAddrs([]int{0, 0}, []time.Duration{0, 0})
+	h.call(1, false, false) // the worker dials addresses 1 and 2
+	h.park()
+	h.call(2, false, false) // the worker parks in the gater while handling this request
+	h.call(3, false, false) // blocked on reqch: the loop is not receiving
+	h.cancelCaller(3)       // first select of dialSync.Dial: only this caller leaves
+	h.release()
+	h.result(1, 1) // address 1 connects: callers 1 and 2 return with the connection
+	h.advance(2 * time.Second)
+	h.finishCase()
+	out.Cover("dialpeer.cancel_while_sending")
+	h.end(out)
+}
